@@ -1,6 +1,6 @@
 ENGINES = [
     {'name': 'mirsym', 'path': '/verif/mirsym',
-     'serves_properties': ['C01', 'C12', 'C16', 'C17', 'C18', 'C19'],
+     'serves_properties': ['C01', 'C04', 'C12', 'C16', 'C17', 'C18', 'C19'],
      'kind_free_text': 'symbolic executor over the MIR that rustc emits for /repo\'s working tree (regenerated per tree state); std modelled at the call boundary; z3 QF_BV decides every branch and every obligation; counterexamples replayed natively through /verif/replay'},
 ]
 NOTES = 'Every check: exit 0 = held for all inputs inside the stated bounds (KNOWN-FINDING lines allowed); exit 1 = natively reproducing violation; exit 2 = inconclusive (unsupported construct, solver unknown, model/native mismatch, vacuous harness) and is never reported as a pass.'
@@ -42,9 +42,15 @@ CHECKS['C16'] = {
     'note': 'imara-diff replaced at its API by a reference LCS (one valid minimal script per equality pattern); texts are a few symbolic bytes over small alphabets plus multi-byte/CRLF templates; previous attributions come from 9 fixed layouts (incl. unsorted, overlapping, zero-length, out of range)',
     'technique': 'MIR symbolic execution + z3 (bounded), reference-model differential, native replay',
 }
+CHECKS['C04'] = {
+    'text': 'Bounded symbolic execution of the real committed/unstaged split (to_authorship_log_and_initial_working_log, whole): for every working tree inside the bounds — a symbolic number K of untouched leading lines, then up to 3 lines each pre-existing / added by the commit / unstaged, optionally an unstaged deletion — and every assignment of authors, the solver decides that the note lists exactly the commit-coordinate numbers of the AI lines the commit added, INITIAL keeps exactly the working-tree numbers of the unstaged AI lines, nothing appears in both, nothing for human, untouched files appear in neither, and the note ranges are sorted / disjoint / non-adjacent. Counterexamples are replayed on a real repository built to that ground truth.',
+    'design_ref': 'DESIGN.md §4 C04',
+    'note': 'the two git diffs are environment models derived from the ground truth (validated by the native replay, which runs the real git); replace-type unstaged hunks and multi-commit sequences are outside (single step decided for an arbitrary pending state)',
+    'technique': 'MIR symbolic execution + z3 (bounded) over a ground-truth model of the working tree, native replay on a real repository',
+}
 _PENDING = 'check not built yet in this round (under construction; see DESIGN.md §4)'
 NOT_APPLICABLE = {
-    'C02': _PENDING, 'C03': _PENDING, 'C04': _PENDING, 'C05': _PENDING, 'C06': _PENDING,
+    'C02': _PENDING, 'C03': _PENDING, 'C05': _PENDING, 'C06': _PENDING,
     'C07': _PENDING, 'C08': _PENDING, 'C09': _PENDING, 'C14': _PENDING, 'C15': _PENDING,
     'C20': _PENDING,
     'C10': 'convergence of notes across clones is decided by git\'s notes-merge / ref-transaction semantics over several repositories; git-ai\'s part is a fixed sequence of subprocess calls with no branch the solver could decide (DESIGN.md §7)',
